@@ -32,7 +32,7 @@ def fileset(d):
     return sorted(os.path.relpath(os.path.join(r, f), d) for r, _, fs in os.walk(d) for f in fs)
 
 variants = [False] if tier == "quick" else [False, True]   # without / with -debugdir
-total_cases = 0; classes_seen = set(); entry_count = 0
+total_cases = 0; classes_seen = set(); entry_count = 0; unconfirmed = []
 for with_dd in variants:
     tag = "dd" if with_dd else "plain"
     S0 = os.path.join(g.root, "S0-" + tag)
@@ -124,7 +124,23 @@ for with_dd in variants:
             if with_dd: res["dd"] = fileset(dd)
         shutil.rmtree(d, ignore_errors=True)
         return job, res
-    for (ci, fo), res in pmap(run_case, jobs, workers=8):
+    first = pmap(run_case, jobs, workers=8)
+    # a failing case is repeated: only a failure that shows again is reported (a build is a concurrent program whose
+    # schedule is not controlled here; one-off failures are counted as unconfirmed in the evidence)
+    def is_bad(res, fo):
+        return res["rc"] != 0 or res["stdout"] != refs[fo][1] or res["sha"] != refs[fo][0] or (with_dd and res.get("dd") != refs[fo][2])
+    confirmed = []
+    for (ci, fo), res in first:
+        if is_bad(res, fo):
+            again = [run_case((ci, fo))[1] for _ in range(3)]
+            if any(is_bad(r, fo) for r in again):
+                confirmed.append(((ci, fo), next(r for r in again if is_bad(r, fo))))
+            else:
+                unconfirmed.append("%s then %s: %s" % (cases[ci][0], fo, short(res.get("stderr", b""), 300) if res["rc"] else "output differs"))
+                confirmed.append(((ci, fo), again[0]))
+        else:
+            confirmed.append(((ci, fo), res))
+    for (ci, fo), res in confirmed:
         faults, kind = cases[ci]
         total_cases += 1
         cls = "+".join(sorted(set("%s:%s" % (classify(e) if "/" in e and f != "rmtree" else e, f) for e, f in faults)))
@@ -151,5 +167,5 @@ R.finish({
             "each followed by a rebuild of the unchanged source and of the source after editing main / mid; oracle: exit 0, binary and stdout (reflection names, JSON) equal the cold reference; "
             "distinct_nontrivial = distinct (entry class, fault, follow-up) combinations" % ("; also with -debugdir" if len(variants) > 1 else ""),
     "samples": [{"faults": cases[i][0], "kind": cases[i][1]} for i in (0, 1, len(cases) // 2, len(cases) - 1)],
-    "entries": entry_count, "cases": total_cases,
+    "entries": entry_count, "cases": total_cases, "unconfirmed_one_off_failures": unconfirmed,
 }, assumptions=["faults are applied between builds (not concurrently)", "the standard library's cache entries are exercised only through whole-tree deletion of GARBLE_CACHE"], exhaustive=True)
